@@ -1230,26 +1230,30 @@ fn sgr_color<'a>(mut cmds: impl Iterator<Item = &'a [u8]>, color_space: bool) ->
         }
         2 => {
             // true color
-            let mut component = || cmds.next().and_then(number_decode);
-            if !color_space {
+            //
+            // component is `None` when it is missing, and `Some(None)` when it
+            // is present but it is not a number that can be decoded
+            let mut component = || cmds.next().map(number_decode);
+            let [r, g, b] = if !color_space {
                 // exactly three components
-                let (r, g, b) = (component()?, component()?, component()?);
-                return Some(RGBA::new(r as u8, g as u8, b as u8, 255));
-            }
-            // It can contain either three or four components
-            // in the case of four first component is ignored
-            match [component(), component(), component(), component()] {
-                [Some(r), Some(g), Some(b), None] | [_, Some(r), Some(g), Some(b)] => {
-                    // components that do not fit into a byte are not a valid color
-                    Some(RGBA::new(
-                        u8::try_from(r).ok()?,
-                        u8::try_from(g).ok()?,
-                        u8::try_from(b).ok()?,
-                        255,
-                    ))
+                [component()??, component()??, component()??]
+            } else {
+                // It can contain either three or four components
+                // in the case of four first component is ignored
+                match [component(), component(), component(), component()] {
+                    [Some(r), Some(g), Some(b), None] | [Some(_), Some(r), Some(g), Some(b)] => {
+                        [r?, g?, b?]
+                    }
+                    _ => return None,
                 }
-                _ => None,
-            }
+            };
+            // components that do not fit into a byte are not a valid color
+            Some(RGBA::new(
+                u8::try_from(r).ok()?,
+                u8::try_from(g).ok()?,
+                u8::try_from(b).ok()?,
+                255,
+            ))
         }
         _ => None,
     }
